@@ -27,7 +27,10 @@ def cm_grid(rng, extra=0):
     for cls, nr0 in (("log16", 1023), ("log8", 15)):
         b = dict(cls=cls, W=8, D=3, maxc=2**32 - 1, nr=nr0)
         g += [b, dict(b, W=9), dict(b, D=2), dict(b, maxc=2**32 - 2), dict(b, maxc=10**6), dict(b, nr=nr0 + 1),
-              dict(b, nr=0)]
+              dict(b, nr=0),
+              # neighbouring values that are indistinguishable after conversion to float64
+              dict(b, maxc=2**40), dict(b, maxc=2**40 + 1), dict(b, maxc=2**60), dict(b, maxc=2**60 + 1),
+              dict(b, maxc=2**63 - 1), dict(b, maxc=2**63), dict(b, maxc=2**60, nr=nr0 + 1)]
     for _ in range(extra):
         cls = rng.choice(["linear", "log16", "log8"])
         W, D = rng.choice([1, 2, 8]), rng.choice([1, 3])
